@@ -3,6 +3,7 @@
 -/
 import InvProxy.Model.AppAuth
 import InvProxy.Props.C18
+import InvProxy.Proofs.AppAuth
 namespace InvProxy.C17
 open InvProxy InvProxy.AppAuth InvProxy.Gen
 
@@ -12,7 +13,10 @@ open InvProxy InvProxy.AppAuth InvProxy.Gen
 theorem agent_authz (s : St) (c : Caller) (ep : AgentEp) (b : Bid) (r : Rid) (p : Bytes)
     (h : (agentCall s c ep b r p).1 ≠ 401) :
     ∃ be, findBackend s.backends b = some be ∧ c.oauth = some be.BackendUser ∧ b ≠ [] := by
-  sorry
+  rcases agentCall_cases s c ep b r p with ⟨e, _, h1⟩ | ⟨hc, _⟩
+  · rw [h1] at h; exact absurd rfl h
+  · obtain ⟨_, h2, be, h3, h4⟩ := (checkBackendID_ok_iff s c b b).1 hc
+    exact ⟨be, h3, h4, h2⟩
 
 /-- Every other caller gets 401 and learns nothing: status and body do not depend on any
     stored request or response, and nothing is changed. -/
@@ -20,7 +24,11 @@ theorem unauthorised_learns_nothing (s s' : St) (c : Caller) (ep : AgentEp) (b :
     (hb : s.backends = s'.backends) (h : (agentCall s c ep b r p).1 = 401) :
     (agentCall s' c ep b r p).1 = 401 ∧ (agentCall s' c ep b r p).2.1 = (agentCall s c ep b r p).2.1 ∧
     (agentCall s c ep b r p).2.2 = s := by
-  sorry
+  rcases agentCall_cases s c ep b r p with ⟨e, hc, h1⟩ | ⟨_, h1⟩
+  · have hc' : checkBackendID s' c b = .error e := by rw [← checkBackendID_congr s s' c b hb]; exact hc
+    rw [agentCall_err hc' ep r p, h1]
+    exact ⟨rfl, rfl, rfl⟩
+  · rw [h1] at h; exact absurd h (agentOk_ne_401 s ep b r p)
 
 /-- An authorised call touches only that backend's requests: requests of every other
     backend are neither changed nor revealed (the reply depends only on the named backend's part). -/
@@ -28,35 +36,63 @@ theorem agent_scope (s : St) (c : Caller) (ep : AgentEp) (b : Bid) (r : Rid) (p 
     (hne : b' ≠ b) :
     getReq (agentCall s c ep b r p).2.2.reqs (b', r') = getReq s.reqs (b', r') ∧
     (agentCall s c ep b r p).2.2.backends = s.backends := by
-  sorry
+  rcases agentCall_cases s c ep b r p with ⟨e, _, h1⟩ | ⟨_, h1⟩
+  · rw [h1]; exact ⟨rfl, rfl⟩
+  · rw [h1]
+    refine ⟨?_, agentOk_backends s ep b r p⟩
+    rcases agentOk_reqs s ep b r p with h2 | h2
+    · rw [h2]
+    · rw [h2]
+      refine getReq_map_other s.reqs (markDone b r) (b, r) (b', r') (markDone_key b r) (markDone_other b r) ?_
+      intro he; injection he with he1 _; exact hne he1
 
 theorem agent_reply_local (s s' : St) (c : Caller) (ep : AgentEp) (b : Bid) (r : Rid) (p : Bytes)
     (hb : s.backends = s'.backends) (hr : ∀ r', getReq s.reqs (b, r') = getReq s'.reqs (b, r'))
     (hp : pendingOf s b = pendingOf s' b) :
     (agentCall s c ep b r p).1 = (agentCall s' c ep b r p).1 ∧ (agentCall s c ep b r p).2.1 = (agentCall s' c ep b r p).2.1 := by
-  sorry
+  have hcc := checkBackendID_congr s s' c b hb
+  rcases agentCall_cases s c ep b r p with ⟨e, hc, h1⟩ | ⟨hc, h1⟩
+  · rw [h1, agentCall_err (hcc ▸ hc) ep r p]; simp
+  · rw [h1, agentCall_ok (hcc ▸ hc) ep r p]
+    unfold agentOk
+    cases ep with
+    | list => simp [hp]
+    | fetch =>
+      by_cases hr0 : r = []
+      · simp [hr0]
+      · simp only [hr0, if_false, hr r]
+        cases getReq s'.reqs (b, r) <;> exact ⟨rfl, rfl⟩
+    | respond =>
+      by_cases hr0 : r = []
+      · simp [hr0]
+      · simp only [hr0, if_false, hr r]
+        cases getReq s'.reqs (b, r) <;> exact ⟨rfl, rfl⟩
 
 /-- A response is stored only for a request that exists under the caller's own backend. -/
 theorem respond_needs_own_request (s : St) (c : Caller) (b : Bid) (r : Rid) (p : Bytes)
     (h : (agentCall s c .respond b r p).2.2.resps ≠ s.resps) :
     (getReq s.reqs (b, r)).isSome ∧ (agentCall s c .respond b r p).2.2.resps = (r, p) :: s.resps := by
-  sorry
+  rcases agentCall_respond s c b r p with ⟨_, h1⟩ | ⟨_, _, _, h2, h3, _⟩
+  · rw [h1] at h; exact absurd rfl h
+  · exact ⟨h2, h3⟩
 
 /-- End users are only ever routed to a backend registered for their own identity or for allUsers. -/
 theorem enduser_routing (s : St) (c : Caller) (ls : Bytes → Option Int) (now : Int) (rid : Rid) (path contents : Bytes) (b : Bid)
     (hid : ∀ x ∈ s.backends, x.BackendID ≠ [])
     (h : (userPost s c ls now rid path contents).2.1 = some b) :
     ∃ u be, c.user = some u ∧ be ∈ s.backends ∧ be.BackendID = b ∧ (be.EndUser = u ∨ be.EndUser = store_sharedBackendUser) := by
-  sorry
+  obtain ⟨u, hu, hl, _⟩ := userPost_some h
+  obtain ⟨be, hbe, h1, h2⟩ := InvProxy.C18.routed_backend_owner { backends := s.backends, lastSeen := ls } u path now b hid hl
+  exact ⟨u, be, hu, hbe, h1, h2⟩
 
 theorem unsigned_401 (s : St) (c : Caller) (ls : Bytes → Option Int) (now : Int) (rid : Rid) (path contents : Bytes)
     (h : c.user = none) : userPost s c ls now rid path contents = (401, none, s) := by
-  sorry
+  unfold userPost; rw [h]
 
 /-- The backend-administration API answers only administrators: everybody else gets 403 and changes nothing. -/
 theorem admin_only (s : St) (c : Caller) (op : AdminOp) (h : isAdmin c = false) :
     adminCall s c op = (403, .text 5, s) := by
-  sorry
+  unfold adminCall; simp [h]
 
 /-- T3: in all three agent handlers `checkBackendID` comes before any store access or reply,
     the admin test comes before any backend CRUD handler, and the cron handler is protected
